@@ -54,6 +54,7 @@ type harness struct {
 	cap     int
 	prefill []string
 	progs   [][]opk
+	warm    int
 }
 
 func (h harness) String() string {
@@ -64,6 +65,9 @@ func (h harness) String() string {
 			q = append(q, o.String())
 		}
 		p = append(p, "["+strings.Join(q, " ")+"]")
+	}
+	if h.warm > 0 {
+		return fmt.Sprintf("cap=%d warm=%d prefill=%v %s", h.cap, h.warm, h.prefill, strings.Join(p, " || "))
 	}
 	return fmt.Sprintf("cap=%d prefill=%v %s", h.cap, h.prefill, strings.Join(p, " || "))
 }
@@ -76,6 +80,10 @@ type execState struct {
 
 func (h harness) setup(st *execState) []func() {
 	st.lru = valid.NewLRU(h.cap)
+	for i := 0; i < h.warm; i++ { // leaves the cache empty; only the hidden counter moves
+		st.lru.Store(fmt.Sprintf("w%d", i), 0)
+		st.lru.Delete(fmt.Sprintf("w%d", i))
+	}
 	for i, k := range h.prefill {
 		st.lru.Store(k, -(i + 1))
 	}
@@ -516,6 +524,7 @@ func allProgs(alpha []opk, n int) [][]opk {
 type cfgT struct {
 	cap     int
 	prefill []string
+	warm    int // store/delete pairs on private keys before anything else: positions the cache's internal removal counter
 }
 
 func selftest(c *runner.Ctx, race bool) {
@@ -606,9 +615,11 @@ func run(c *runner.Ctx) {
 	pfx := c.Mode + ":"
 	deadline := c.Deadline()
 
-	cfgs := []cfgT{{1, nil}, {2, []string{"a"}}, {2, []string{"a", "b"}}}
+	// warm = 2*cap or 2*cap+1: the next one or two removals cross the cache's map-rebuild threshold inside the harness
+	cfgs := []cfgT{{1, nil, 0}, {2, []string{"a"}, 0}, {2, []string{"a", "b"}, 0}, {0, nil, 0}, {1, []string{"a"}, 2}, {1, []string{"a"}, 3}}
 	if c.Thorough() {
-		cfgs = []cfgT{{0, nil}, {1, nil}, {1, []string{"a"}}, {2, nil}, {2, []string{"a"}}, {2, []string{"a", "b"}}, {2, []string{"b", "a"}}, {3, []string{"a", "b"}}, {3, []string{"a", "b", "c"}}}
+		cfgs = []cfgT{{0, nil, 0}, {1, nil, 0}, {1, []string{"a"}, 0}, {2, nil, 0}, {2, []string{"a"}, 0}, {2, []string{"a", "b"}, 0}, {2, []string{"b", "a"}, 0}, {3, []string{"a", "b"}, 0}, {3, []string{"a", "b", "c"}, 0},
+			{1, []string{"a"}, 2}, {1, []string{"a"}, 3}, {2, []string{"a", "b"}, 4}, {2, []string{"a", "b"}, 5}, {0, nil, 1}}
 	}
 	p1 := allProgs(fullAlpha, 1)
 	p2 := allProgs(fullAlpha, 2)
@@ -657,7 +668,7 @@ func run(c *runner.Ctx) {
 				{"H2x2-unbounded", -1, pairs(p2), cfgs},
 				{"H3x1-unbounded", -1, triples(p1), cfgs},
 				{"H2x3-bound3", 3, h2x3, cfgs[1:7]},
-				{"H3x2-bound2", 2, triples(r2), []cfgT{{1, nil}, {2, []string{"a"}}, {2, []string{"a", "b"}}}},
+				{"H3x2-bound2", 2, triples(r2), []cfgT{{1, nil, 0}, {2, []string{"a"}, 0}, {2, []string{"a", "b"}, 0}}},
 			}
 		} else {
 			plans = []plan{
@@ -681,12 +692,12 @@ func run(c *runner.Ctx) {
 	}
 	for _, pl := range plans {
 		for _, cf := range pl.cfgs {
-			c.Space(fmt.Sprintf("%s%s cap=%d prefill=%v", pfx, pl.name, cf.cap, cf.prefill))
+			c.Space(fmt.Sprintf("%s%s cap=%d prefill=%v warm=%d", pfx, pl.name, cf.cap, cf.prefill, cf.warm))
 			pl.gen(func(progs [][]opk) {
 				if !c.Take() {
 					return
 				}
-				h := harness{cap: cf.cap, prefill: cf.prefill, progs: progs}
+				h := harness{cap: cf.cap, prefill: cf.prefill, progs: progs, warm: cf.warm}
 				st := exploreHarness(c, h, pl.bound, race, linCache, deadline)
 				_ = st
 				c.Sample(func() interface{} {
